@@ -76,6 +76,7 @@ type VC struct {
 	dry      bool
 	touched  map[string]bool
 	loopEntry  map[int]*State // state in which loop N was entered (atloop)
+	deferCF    map[string]Term // control-flow condition under which a deferred call of NAME was registered
 	privAllocs map[*ssa.Alloc]bool // cells of the function whose address never leaves it (private.go)
 	topHit   bool
 	ordinals map[string]int
